@@ -362,7 +362,17 @@ def run_random(ctx, rdp, case):
     idx = np.asarray(case['indexes'], dtype=int)
     pts = np.zeros((n, 2))
     pts[:, 0] = np.arange(n)
-    ok, removed = install.guarded(ctx, 'complete:rdp.compute_removed_points', rdp.compute_removed_points, pts, red)
+    red_arg = red
+    if (n + len(red)) % 3 == 0:
+        # the index set as a strided view / a column of a 2-D table (same values, non-contiguous storage)
+        big = np.full(2 * len(red) + 1, -1, dtype=red.dtype)
+        big[1::2] = red
+        red_arg = big[1::2]
+        ctx.h('reduced_storage', 'strided-view')
+    elif (n + len(red)) % 3 == 1:
+        red_arg = np.column_stack((red, red[::-1]))[:, 0]
+        ctx.h('reduced_storage', 'table-column')
+    ok, removed = install.guarded(ctx, 'complete:rdp.compute_removed_points', rdp.compute_removed_points, pts, red_arg)
     if not ok:
         return
     removed = np.asarray(removed)
